@@ -32,6 +32,9 @@ def build(ctx, family, only_step=None):
         if ctx.hardware_avx512:
             xcfg.append(('a512', ctx.flags_native(avx512=True, extra=inc)))
         xcfg.append(('march', ctx.flags_native(avx512=False, extra=inc + ['-march=native'])))
+        import shutil
+        if shutil.which('clang++'):  # another compiler (argument evaluation order, different code generation); optional
+            xcfg.append(('clang', ctx.flags_native(avx512=False, omp=False, extra=inc + ['--cxx=clang++', '--optional'])))
         for tag, fl in xcfg:
             objs.append((pre + '_nat_%s.o' % tag, [KTU], fl + ['-DKNS=nat', '-c'], []))
     ctx.xcfg = [t_ for t_, _ in xcfg]
@@ -72,7 +75,7 @@ def explore(ctx):
         n = pre + '_native_' + tag
         if n in ctx.bins:
             ctx.run_step(n, ctx.bins[n], fa)
-            ctx.bounds.setdefault('other build configurations of the same kernels', []).append({'a512': '-mavx512f -D__AVX512__', 'march': '-march=native'}[tag])
+            ctx.bounds.setdefault('other build configurations of the same kernels', []).append({'a512': '-mavx512f -D__AVX512__', 'march': '-march=native', 'clang': 'clang++'}[tag])
     if ctx.native_ok:
         ctx.run_step(pre + '_native', ctx.bins[pre + '_native'], fa)
     else:
